@@ -10,6 +10,7 @@ from . import c01, c02, c03, c04, c05, c06, c08, c09, c10, c11, c13, c17
 ALIASES = [
     # (new id, source rule function, why this property depends on it)
     ("C01.R9", c02.r2, "which branch is selected depends on how the controlling expression is parsed (= C02.R2)"),
+    ("C01.R14", c02.r12, "an operator that a whole expression never reaches (`?:` below the starting precedence) silently changes which branch is selected (= C02.R12)"),
     ("C01.R10", c02.r7, "`defined X` / `defined(X)` in controlling expressions (= C02.R7)"),
     ("C02.R9", c01.r2, "an #elif after a taken branch is neither evaluated nor able to change the chain's state: the complete visitor table (= C01.R2)"),
     ("C02.R10", c01.r5, "the truth value used for #if/#elif is the evaluator's result (= C01.R5)"),
